@@ -37,3 +37,11 @@ Example c05_summaries :
   option_map (map en_actual) (run (PSet 0 SCall false [PSimple 1 (ulit "9")]) (VVecV [VInt 1; VInt 2; VInt 3]) [])
   = Some [TSetLen 3].
 Proof. split; vm_compute; reflexivity. Qed.
+
+(* a slice pattern that fails on shape shows the value at its path, not the slice view it is matched on: for a slice-like
+   value that is not a Vec (slice::Iter, a user type with as_slice()) the two print differently *)
+Example c05_slice_shape_failure_shows_the_value_not_its_slice_view :
+  option_map (map (fun e => match en_actual e with TDebug v => debug v | _ => ""%string end))
+             (run (PSlice 0 SCall [PSimple 1 (ulit "1"); PSimple 2 (ulit "2")]) (VViewV "Iter" [VInt 1; VInt 2; VInt 3]) [])
+  = Some ["Iter([1, 2, 3])"%string].
+Proof. vm_compute. reflexivity. Qed.
